@@ -323,6 +323,11 @@ impl Check for C04 {
 							loops.push(Some((a, b)));
 						}
 					}
+					// a loop end beyond the audio is never reached: played forwards the sound ends as if it had no loop region
+					if !reverse && rate > 0.0 && n > 0 {
+						loops.push(Some((0, n + 2)));
+						loops.push(Some((n / 2, n + 1)));
+					}
 					for lp in loops {
 						for &chunk in &CHUNKS {
 							let sc = Scene {
